@@ -10,7 +10,7 @@
 #include "stub_io.h"
 static ABTI_barrier B;
 static ABTI_thread D1;
-static int n, arrived, round_done, f_released, early, parked_ult1, parked_d1, next_round_entered;
+static int n, arrived, round_done, f_released, early, parked_ult1, parked_d1, next_round_entered, reinit_done;
 #if FOCUS_EXT
 #define AGENT_A (-1)
 #define AGENT_L 2
@@ -34,7 +34,14 @@ static void env_step(void)
         vr_env_noblock = 0; __CPROVER_assert(r == ABT_SUCCESS, "last arrival returns");
         round_done = 1;
         __CPROVER_assert(B.counter == 0 && B.waitlist.p_head == NULL && B.waitlist.p_tail == NULL, "round completion resets the counter and empties the wait-list before the lock is released");
-    } else if (who == 3 && round_done && !next_round_entered && n > 1) {
+    } else if (who == 4 && round_done && !next_round_entered && !reinit_done) {
+        /* the round is complete (its last arrival has returned, nobody is blocked on the barrier any more): the barrier may be
+         * re-initialised for a different number of waiters -- also while a released waiter has not yet left ABT_barrier_wait
+         * (an external thread between its wake-up and its re-check of the futex word): it must still get out */
+        as_agent(AGENT_L); reinit_done = 1;
+        int r = ABT_barrier_reinit((ABT_barrier)&B, (uint32_t)n + 1);
+        __CPROVER_assert(r == ABT_SUCCESS && B.num_waiters == (size_t)n + 1, "reinit after a completed round succeeds");
+    } else if (who == 3 && round_done && !next_round_entered && !reinit_done && n > 1) {
         /* a fast caller re-enters for the next round while slow ones are still leaving: it must be counted into the NEW round */
         next_round_entered = 1; B.counter++; static ABTI_thread D2; D2.type = ABTI_THREAD_TYPE_EXT; D2.state.val = ABT_THREAD_STATE_BLOCKED; park(&D2);
     }
@@ -66,6 +73,7 @@ int main(void)
     if (last && n == 2) VR_WITNESS("focus was the last arrival and released a parked ULT");
     if (!last && n == 3) VR_WITNESS("focus parked until the third caller arrived");
     if (n == 1) VR_WITNESS("single-waiter barrier returns at once");
+    if (reinit_done && !last) VR_WITNESS("the barrier was re-initialised after the round completed, before the released focus had left the wait");
 #if !FOCUS_EXT
     VR_ASSERT(PL0.num_blocked.val == 0, "blocked counter balanced");
 #endif
